@@ -166,7 +166,7 @@ def fresh_at_all_call_sites(model, fname, pname_index, owner_methods):
     sites = 0
     for mod, qn, fn in model.all_functions():
         for c in ast.walk(fn):
-            if isinstance(c, ast.Call) and isinstance(c.func, ast.Attribute) and c.func.attr == fname:
+            if isinstance(c, ast.Call) and ((isinstance(c.func, ast.Attribute) and c.func.attr == fname) or (isinstance(c.func, ast.Name) and c.func.id == fname)):
                 sites += 1
                 if pname_index >= len(c.args):
                     return False
@@ -223,8 +223,12 @@ def r1_arg_mutation(model, rep):
     src = ast.unparse(d)
     ok = True
     for x in ast.walk(d):
-        if isinstance(x, ast.Assign) and isinstance(x.value, ast.Name) and x.value.id == "config":
-            ok = False
+        if isinstance(x, ast.Assign) and isinstance(x.value, ast.Name) and x.value.id == "config" and isinstance(x.targets[0], ast.Name):
+            # harmless while the alias is only read (handed to copy.deepcopy); a store through it reaches the caller's dict
+            al = x.targets[0].id
+            if any(isinstance(y, (ast.Assign, ast.AugAssign)) and any(isinstance(t, ast.Subscript) and base_name(t) == al for t in (y.targets if isinstance(y, ast.Assign) else [y.target])) for y in ast.walk(d)) \
+                    or any(isinstance(c, ast.Call) and not ast.unparse(c.func).endswith("deepcopy") and any(isinstance(a, ast.Name) and a.id == al for a in c.args) for c in ast.walk(d)):
+                ok = False
         if isinstance(x, ast.Assign) and isinstance(x.targets[0], ast.Name) and isinstance(x.value, ast.Subscript):
             # conf = attrs["default"] without deepcopy, followed by stores into conf
             tname = x.targets[0].id
